@@ -52,6 +52,13 @@ func (fr *frame) callWithArgs(st *state, c *ssa.CallCommon, instr ssa.Instructio
 	fc := fr.fc
 	e := fc.e
 	sig := c.Signature()
+	if _, isBuiltin := c.Value.(*ssa.Builtin); !isBuiltin {
+		for i, a := range c.Args {
+			if i < len(args) {
+				fr.markEscaped(st, args[i], a.Type())
+			}
+		}
+	}
 	if c.IsInvoke() {
 		return fr.invoke(st, c, instr, pos, args)
 	}
@@ -248,7 +255,7 @@ func (fr *frame) contractCall(st *state, g *ssa.Function, ct *FuncContract, key 
 		}
 	}
 	eff = append(eff, extraEffects...)
-	fc.havocKeys(st, eff)
+	fc.havocFramed(st, pre, eff)
 	fr.bumpAlloc(st)
 	res := fr.freshResults(st, g.Signature, g.Name())
 	if ct != nil {
@@ -344,7 +351,7 @@ func (fr *frame) specCall(st *state, ct *FuncContract, key, anchor string, pos t
 		}
 	}
 	pre := st.clone()
-	fc.havocKeys(st, eff)
+	fc.havocFramed(st, pre, eff)
 	fr.bumpAlloc(st)
 	res := fr.freshResults(st, sig, "dyn")
 	if ct != nil {
@@ -474,7 +481,7 @@ func (fr *frame) builtin(st *state, b *ssa.Builtin, c *ssa.CallCommon, instr ssa
 		return []string{fr.appendSlice(st, c, args)}
 	case "copy":
 		if stt, ok := c.Args[0].Type().Underlying().(*types.Slice); ok {
-			fr.havocArr(st, u.sortOf(stt.Elem()), app("sref", args[0]))
+			fr.havocArr(st, stt.Elem(), app("sref", args[0]))
 		}
 		r := sc.declare("copied", "Int")
 		sc.assume(fmt.Sprintf("(>= %s 0)", r))
@@ -511,7 +518,7 @@ func (fr *frame) appendSlice(st *state, c *ssa.CallCommon, args []string) string
 		return sc.declare("append", "Slice")
 	}
 	es := u.sortOf(stt.Elem())
-	key := "A|" + es
+	key := u.arrKey(stt.Elem())
 	s := args[0]
 	grow := sc.declare("grow", "Bool")
 	fresh := fr.freshRef(st, "append")
